@@ -206,6 +206,9 @@ func checkC08(c *Check) {
 	c.Analysed(fnName(mr))
 	c.matcherShape(mr)
 	c.subsetShape()
+	// the audited attributes looked up for a bidder are that bidder's: the owner-scoped listing iterates exactly the
+	// keys under the owner's prefix (key layout + bounded iterators, shared with C06-R5)
+	c.keyLayoutsRule("R2", []string{"x/audit/keeper"}, 1, 0)
 	// an auditor's attestation is merged only with that auditor's own earlier attestation: what
 	// CreateOrUpdateProviderAttributes reads is the record under the very key it writes (owner AND auditor), never an
 	// owner-wide listing (whose first element belongs to whichever auditor sorts first)
@@ -263,7 +266,31 @@ func checkC08(c *Check) {
 		}
 	}
 	c.Ob("R3", "UpdateProvider scans all leases", up.Pos(), scan != nil && cb != nil, "no scan over leases before the update")
+	recognised := false
 	if scan != nil && cb != nil {
+		for _, call := range callsIn(cb, false) {
+			if calleeMethod(call) == "MatchAttributes" {
+				recognised = true
+			}
+		}
+		if !recognised {
+			// the attribute check is not inside the scan callback: decided only as far as "there still is one"
+			total := 0
+			for _, g := range fnAndClosuresDeep(up) {
+				for _, call := range callsInOwn(g) {
+					if calleeMethod(call) == "MatchAttributes" {
+						total++
+					}
+				}
+			}
+			if total == 0 {
+				c.Ob("R3", "scan callback checks order attributes", cb.Pos(), false, "UpdateProvider no longer checks the orders of active leases against the new attributes")
+			} else {
+				c.Info("R3", "UpdateProvider: attribute check not inside the lease-scan callback, coverage of every active lease not decided", up.Pos(), "the orders are matched outside the callback (collected first, checked later): the per-lease conditions of this rule are written for the callback form")
+			}
+		}
+	}
+	if scan != nil && cb != nil && recognised {
 		for _, call := range callsIn(up, false) {
 			if !callIs(call, "Update", "IKeeper") {
 				continue
@@ -410,7 +437,35 @@ func checkC08(c *Check) {
 		}
 		c.Ob("R3", "order attribute guard: MatchAttributes is positive only if the required attributes are a subset of the offered ones", ma.Pos(), okLeaves && n > 0, "MatchAttributes can answer "+bad+" without the subset test: a provider may drop attributes its active leases were matched on")
 	}
-	c.Floor("R3", 6)
+	// the wrappers the market module calls: Order.MatchAttributes / Order.MatchRequirements answer what the group spec's
+	// predicate answers for the order's spec and the given list (or false), on every path
+	for _, wn := range []string{"MatchAttributes", "MatchRequirements"} {
+		wf := l.Func("x/market/types", "Order", wn)
+		c.Analysed(fnName(wf))
+		okW, nW, badW := true, 0, ""
+		for _, b := range wf.Blocks {
+			r, isR := b.Instrs[len(b.Instrs)-1].(*ssa.Return)
+			if !isR {
+				continue
+			}
+			for _, lf := range retLeaves(r.Results[0], b, map[ssa.Value]bool{}) {
+				nW++
+				if isConstBool(lf.val, false) {
+					continue
+				}
+				s := Sym(lf.val)
+				if s == "types.GroupSpec."+wn+"(p:o.Spec, p:"+paramName(wf.Params[1])+")" {
+					continue
+				}
+				okW = false
+				badW = short(s)
+			}
+		}
+		c.Ob("R3", "Order."+wn+" answers what the group spec's "+wn+" answers for the order's spec", wf.Pos(), okW && nW > 0, "Order."+wn+" can answer "+badW+" without consulting the order's requirements")
+	}
+	if recognised {
+		c.Floor("R3", 6)
+	}
 }
 
 // matcherShape: structural conditions on GroupSpec.MatchRequirements.
